@@ -44,6 +44,21 @@ Theorem parse_date_fits :
 Proof. exact PrintDates.parse_date_fits. Qed.
 Print Assumptions parse_date_fits.
 
+(** a space in the layout is Go's [time.skip]: it matches any run of spaces of the value, the space
+    literals that follow it are consumed with it, at the end of the value it matches the empty run, and
+    it does not match anything else (layout ["02/01//2006 "] reads ["06/10//2021"]) *)
+Theorem parse_date_space_runs :
+  (forall (r : list ltoken) (s : bytes) (y m d : Z),
+     parse_tokens (Lit 32 :: r) (32%N :: s) y m d = parse_tokens (drop_space_lits r) (drop_spaces s) y m d)
+  /\ (forall (r : list ltoken) (y m d : Z),
+       parse_tokens (Lit 32 :: r) [] y m d = parse_tokens (drop_space_lits r) [] y m d)
+  /\ (forall (r : list ltoken) (c : N) (s : bytes) (y m d : Z),
+       c <> 32%N -> parse_tokens (Lit 32 :: r) (c :: s) y m d = None)
+  /\ parse_date [D2; Lit 32; M2] (b "05   07") = Some (0, 7, 5)%Z
+  /\ parse_date [D2; Lit 47; M2; Lit 47; Lit 47; Y4; Lit 32] (b "06/10//2021") = Some (2021, 10, 6)%Z.
+Proof. exact PrintDates.parse_date_space_runs. Qed.
+Print Assumptions parse_date_space_runs.
+
 (** "print writes a log that the tool itself reads back ... to the same days, foods, quantities
     (rounded to two decimals) and notes": one record per day, in order; the walk gives the same days
     with each quantity replaced by what its two-decimal rendering reads back to *)
@@ -71,12 +86,13 @@ Print Assumptions print_idempotent.
 
 (** "For every readable log": the days of ANY log the tool reads have the normal shape (dates the
     layout can express, normal pairwise distinct names), and the layout of a non-empty readable log
-    is a heading layout *)
+    is a heading layout up to the spaces at its end ([layout_core]: a space of the layout matches the
+    empty run at the end of a heading, so the layout ["2006/01/02 "] reads the heading [2021/01/01]) *)
 Theorem read_log_shape :
   forall (NM : Num) (toks : list ltoken) (data : bytes) (L : list (lognode NM)),
     read_log NM toks data = Some L ->
     Forall (day_shape NM toks) L
-    /\ (L <> [] -> forallb safe_tok toks = true -> heading_layout toks = true).
+    /\ (L <> [] -> forallb safe_tok toks = true -> heading_layout (layout_core toks) = true).
 Proof. exact PrintMain.read_log_shape. Qed.
 Print Assumptions read_log_shape.
 
